@@ -322,6 +322,65 @@ def gen_case(rng, modelled, hist_len):
     return {"recycled": rec, "fresh": fresh, "nhist": len(hist), "split": (1, 1 + len(hist)), "modelled": modelled}
 
 
+def shape_cases(rng):
+    """Reuse shapes that every run must exercise (coordinator's list): (a) x86-64 without base address, jmp/call to the same
+    absolute address before and after reinit / reset+init - address-table entries must not survive; (c) two emitters attached
+    at reset() time, the first re-attached alone, then reinit()."""
+    cases = []
+    # (a) address table
+    for k in range(8):
+        em = (0, 0, 2, 3)[k % 4]
+        addr = rng.choice((0x123456789ABC, 0x7FFF00001000, 0x400000)) + 0x10 * rng.randrange(16)
+        other = addr + 0x100000000
+        fin = [] if em == 0 else ["finalize %d" % em]
+        hist = ["init x64", "attach %d" % em, "jabs %d %x" % (em, addr), "jabs %d %x call" % (em, addr), "raw %d c3" % em,
+                "jabs %d %x" % (em, other)] + fin + (["link 10000"] if k % 3 == 1 else [])
+        # (`link` = relocate_to_base stores the base address in the holder and reinit keeps it by design: only before a reset)
+        recycle = (["reinit"], ["reset soft", "init x64", "attach %d" % em], ["reset hard", "init x64", "attach %d" % em])[k % 3]
+        prog = ["jabs %d %x%s" % (em, addr, rng.choice(("", " call"))), "raw %d 90" % em, "jabs %d %x" % (em, addr)] + fin + \
+               ["link %x" % rng.choice((0x10000, 0x7F0000000000))]
+        cases.append({"recycled": ["world dynamic"] + hist + recycle + prog + ["dump"],
+                      "fresh": ["world %s" % rng.choice(("dynamic", "static 4096")), "init x64", "attach %d" % em] + prog + ["dump"],
+                      "nhist": len(hist), "split": (1, 1 + len(hist)), "modelled": False, "shape": "a"})
+    # (c) two emitters attached at reset() time, first re-attached alone, then reinit()
+    for (i, j) in ((0, 1), (0, 2), (2, 3), (3, 0), (2, 0), (3, 2), (1, 3), (2, 1)):
+        fam = "a64" if (i + j) % 3 == 0 else "x86"
+        fam_w = " a64" if fam == "a64" else ""
+        arch = "a64" if fam == "a64" else "x64"
+        tr = Tracker()
+        w0 = "world dynamic" + fam_w
+        tr.apply(w0)
+        hist = []
+        for op in ("init %s" % arch, "attach %d" % i, "attach %d" % j):
+            hist.append(op)
+            tr.apply(op)
+        hist += gen_code_ops(rng, tr, 14, True)
+        tail = ["reset %s" % rng.choice(("soft", "hard")), "init %s" % arch, "attach %d" % i, "reinit"]
+        for op in tail:
+            tr.apply(op)
+        prog = gen_code_ops(rng, tr, 16, True) + ([] if EM_KIND[i] == "asm" else ["finalize %d" % i])
+        cases.append({"recycled": [w0] + hist + tail + prog + ["dump"],
+                      "fresh": ["world static 4096" + fam_w, "init %s" % arch, "attach %d" % i] + prog + ["dump"],
+                      "nhist": len(hist), "split": (1, 1 + len(hist)), "modelled": True, "shape": "c"})
+    return cases
+
+
+def fn_cases(rng, n):
+    """(b) two or more functions in one Compiler and one finalize: earlier functions use (and save) every callee-saved
+    register, the last one needs none - its bytes must equal the bytes it has when compiled alone."""
+    out = []
+    for k in range(n):
+        fam = "a64" if k % 2 else "x86"
+        fam_w = " a64" if fam == "a64" else ""
+        arch = "a64" if fam == "a64" else "x64"
+        heavy_nv = rng.randrange(26, 31) if fam == "a64" else rng.randrange(13, 17)
+        light = "prog 3 funcp %d %d %d" % (rng.randrange(1 << 30), rng.randrange(2, 9), rng.randrange(2, 4))
+        heavies = ["prog 3 funcp %d %d %d" % (rng.randrange(1 << 30), rng.randrange(10, 40), heavy_nv) for _ in range(rng.randrange(1, 4))]
+        head = ["world dynamic" + fam_w, "init %s" % arch, "attach 3"]
+        out.append((head + heavies + [light, "finalize 3", "fnbytes 3"], head + [light, "finalize 3", "fnbytes 3"]))
+    return out
+
+
 # ----------------------------------------------------------------------------------------------
 # running
 # ----------------------------------------------------------------------------------------------
@@ -367,13 +426,18 @@ def shrink_case(h, case, want_crash):
     head, hist, rest = case["recycled"][:s0], case["recycled"][s0:s1], case["recycled"][s1:]
     v0, _ = case_verdict(h, case)
     comp0 = bad_component(v0)
+    a0, _, _ = run_stream([str(h)], case["recycled"])
+    rest0 = a0[s1:-1]             # answers of the recycle tail and of the program: a candidate must not change them
 
     def fails_hist(hh):
         c = dict(case, recycled=head + hh + rest)
         v, crashed = case_verdict(h, c)
         if want_crash:
             return crashed
-        return v.startswith("BAD") and bad_component(v) == comp0 and not (comp0 or "").startswith("code|")
+        if not (v.startswith("BAD") and bad_component(v) == comp0 and not (comp0 or "").startswith("code|")):
+            return False
+        a, _, _ = run_stream([str(h)], c["recycled"])
+        return a[s0 + len(hh):-1] == rest0
 
     if hist and fails_hist([]):
         hist = []
@@ -463,8 +527,34 @@ def run(res):
     n_diff = 260 if quick else 3500
     if broken:
         n_mod, n_diff = n_mod * 2, n_diff * 2          # a broken obligation: search harder for a witness
-    cases = [gen_case(rng, True, rng.randrange(0, 40)) for _ in range(n_mod)] + \
-            [gen_case(rng, False, rng.randrange(0, 25)) for _ in range(n_diff)]
+    shapes = shape_cases(rng)
+    cases = [c for c in shapes if c["modelled"]] + [gen_case(rng, True, rng.randrange(0, 40)) for _ in range(n_mod)] + \
+            [gen_case(rng, False, rng.randrange(0, 25)) for _ in range(n_diff)] + [c for c in shapes if not c["modelled"]]
+    n_mod += len([c for c in shapes if c["modelled"]])
+    # (b) later function vs. the same function alone
+    fnc = fn_cases(rng, 12 if quick else 150)
+    fn_lines = []
+    for a, b in fnc:
+        fn_lines += a + b
+    fo, frc, ferr = run_stream([str(h)], fn_lines)
+    fn_bad = []
+    if frc != 0 or len(fo) != len(fn_lines):
+        res.violation("real code aborts while compiling several functions in one Compiler: %s" % ferr[-400:], {"ops": fn_lines[:40]}, True, key="abort")
+        return
+    pos, fpairs = 0, []
+    for a, b in fnc:
+        fpairs.append((fo[pos + len(a) - 1], fo[pos + len(a) + len(b) - 1]))
+        pos += len(a) + len(b)
+    fv, _, _ = vlib.run_model(PID, ["cmpfn %s %s" % p for p in fpairs])
+    for k, v in enumerate(fv):
+        if not v.startswith("good"):
+            fn_bad.append((k, v))
+    res.coverage["later_function_pairs"] = len(fpairs)
+    if fn_bad or len(fv) != len(fpairs):
+        k, v = fn_bad[0] if fn_bad else (0, "monitor protocol failure")
+        res.violation("a later function of the same Compiler inherits from earlier ones: %s (%d of %d pairs). with earlier functions: %s | alone: %s" % (
+            v, len(fn_bad), len(fpairs), summarise(fnc[k][0]), summarise(fnc[k][1], 200)),
+            {"ops": fnc[k][0], "ops_fresh": fnc[k][1], "monitor": v}, True, key="fn-inherit")
     stream, index = [], []
     for ci, c in enumerate(cases):
         for which in ("recycled", "fresh"):
@@ -571,7 +661,8 @@ def run(res):
                             "(reinit | reset+init+attach | detach/attach cycle) + program, compared with the same program on fresh objects (other "
                             "arena memory kind, logger/validation settings); non-trivial = distinct final output with non-empty .text after a non-empty history")
     res.coverage["input_distribution"] = dict(sorted(kinds.items(), key=lambda kv: -kv[1])[:60])
-    res.coverage["cases"] = {"modelled": n_mod, "differential_only": n_diff,
+    res.coverage["cases"] = {"modelled": n_mod, "differential_only": n_diff, "shape_a_address_table": len([c for c in shapes if c["shape"] == "a"]),
+                             "shape_b_later_function": len(fpairs), "shape_c_two_attached_at_reset": len([c for c in shapes if c["shape"] == "c"]),
                              "recycle_reinit": sum(1 for c in cases if "reinit" in c["recycled"][c["split"][1]:c["split"][1] + 1]),
                              "monitored_pairs": len(pairs)}
     for ci in (0, n_mod // 2, n_mod, len(cases) - 1):
